@@ -8,6 +8,7 @@ import (
 	"io"
 	"runtime"
 	"sort"
+	"strings"
 	"sync"
 	"sync/atomic"
 	"testing"
@@ -16,6 +17,7 @@ import (
 
 	goat "github.com/avos-io/goat"
 	"github.com/avos-io/goat/gen/goatorepo"
+	"github.com/avos-io/goat/internal/client"
 	"github.com/avos-io/goat/internal/verifhook"
 	"google.golang.org/grpc"
 	"google.golang.org/protobuf/proto"
@@ -824,6 +826,109 @@ func TestC05Retry(t *testing.T) {
 				em.Marker("end", idx)
 				idx++
 			}
+		}
+	}
+}
+
+// ---------------------------------------------------------------- C09: RpcMultiplexer.Close() around the read failure
+
+// TestC09MuxClose: the multiplexer driven through its own API (internal/client, as the repository's tests do): the
+// transport's Read fails and RpcMultiplexer.Close() is called - before the failure, after it, twice - then new calls
+// (CallUnaryMethod, NewStreamReadWriter + Read) are started: once the read has failed every new call must fail, at once,
+// whatever Close() did in between; none may stay pending, none may succeed (C09Storm: reasons 6, 5).
+func TestC09MuxClose(t *testing.T) {
+	em := NewEmitter()
+	defer em.Close()
+	idx := 0
+	for _, order := range []string{"fail,close", "close,fail", "fail,close,close", "fail", "close,fail,close"} {
+		for _, inflight := range []bool{false, true} {
+			if !want(idx) {
+				idx++
+				continue
+			}
+			em.Marker("begin", idx)
+			pending, succ, n := 0, 0, 0
+			leaked := bubble(t, func(t *testing.T) {
+				ep := NewEndpoint("client")
+				ep.CheckCtx = true
+				mux := client.NewRpcMultiplexer(ep)
+				h := hdr("/verif.Echo/Unary", "src", "dst")
+				body := func(tok int64) *goatorepo.Body {
+					b, _ := proto.Marshal(&wrapperspb.BytesValue{Value: payloadOf(tok)})
+					return &goatorepo.Body{Data: b}
+				}
+				ctx, cancel := context.WithCancel(context.Background())
+				defer func() {
+					cancel()
+					ep.FailRead(errInjected)
+					synctest.Wait()
+				}()
+				type res struct {
+					done atomic.Bool
+					ok   atomic.Bool
+				}
+				var all []*res
+				unary := func(tok int64) {
+					r := &res{}
+					all = append(all, r)
+					go func() {
+						_, err := mux.CallUnaryMethod(ctx, h, body(tok), nil)
+						r.ok.Store(err == nil)
+						r.done.Store(true)
+					}()
+				}
+				stream := func() {
+					r := &res{}
+					all = append(all, r)
+					go func() {
+						_, rw, teardown, err := mux.NewStreamReadWriter(ctx)
+						if err == nil {
+							defer teardown()
+							if err = rw.Write(ctx, &Rpc{Id: 99, Header: hdr("/verif.Echo/Bidi", "src", "dst")}); err == nil {
+								_, err = rw.Read(ctx)
+							}
+						}
+						r.ok.Store(err == nil)
+						r.done.Store(true)
+					}()
+				}
+				if inflight {
+					unary(1)
+					stream()
+					synctest.Wait()
+				}
+				for _, st := range strings.Split(order, ",") {
+					if st == "fail" {
+						ep.FailRead(errInjected)
+					} else {
+						mux.Close()
+					}
+					synctest.Wait()
+				}
+				// calls started after the failure (the write side still accepts)
+				unary(2)
+				synctest.Wait()
+				stream()
+				synctest.Wait()
+				unary(3)
+				synctest.Wait()
+				n = len(all)
+				for _, r := range all {
+					if !r.done.Load() {
+						pending++
+					} else if r.ok.Load() {
+						succ++
+					}
+				}
+			})
+			tags := []string{"mux-close:" + order, fmt.Sprintf("calls-in-flight=%v", inflight)}
+			if leaked {
+				tags = append(tags, "leaked-at-end")
+			}
+			em.Emit(Rec{Idx: idx, Kind: "c09-mux-close", Desc: map[string]any{"order": order, "inflight": inflight, "calls": n, "pending": pending, "succeeded": succ},
+				Tags: tags, Coq: fmt.Sprintf("C09Storm %d %d %d", n, pending, succ)})
+			em.Marker("end", idx)
+			idx++
 		}
 	}
 }
